@@ -13,7 +13,7 @@ import json
 
 from harness.common import Model, canon
 
-FACTS = ("tables", "parser", "c02", "c05", "c06", "c08", "c09")
+FACTS = ("tables", "parser", "c02", "c05", "c06", "c08", "c09", "pin_c17")
 
 RULE = ("exhaustive texts over {a, newline} up to the tier's length bound with every offset "
         "0..len+1, plus seeded random texts over {a, \\n, \\r, \\x0b, \\x0c, U+2028, U+1F600}; "
